@@ -40,6 +40,9 @@ def terms(case, build=None):
         msg = written_message(open(path, "rb").read())
         t = P.sort_sets(P.ROOT, P.msg_tree(msg, "CommonRoad"))
         a = f"CaseA {P.coq_val(v_in)} {P.coq_tree(t)}"
+        from props.codec_gen import may_open_ring
+        if may_open_ring(case.get("seed", 1)):
+            return a, None, "may hold polygons with an open ring (the reader closes it: outside the tables' reader side)"
         try:
             sc2, pps2 = codec_run.read(case, path)
         except Exception as e:  # noqa
